@@ -20,10 +20,10 @@ def err_line(e):
     l = getattr(e, 'lineno', None)
     return l if isinstance(l, int) else -1
 
-def parse_in_mode(mode, text):
-    return parse_seq(mode, [text])
+def parse_in_mode(mode, text, kw=None):
+    return parse_seq(mode, [text], kw)
 
-def parse_seq(mode, texts):
+def parse_seq(mode, texts, kw=None):
     """ONE Parser() instance reading the texts one after the other (parse_string each) in strict (0) / non-strict (1) / capture (2) mode.
     Returns [0, [entries, preamble, errors]] | [1, 0, line] (pybtex error escaped) | [2] (foreign exception).
     entries/preamble items carry a 'dirty' flag: an error was reported between the return of the
@@ -47,7 +47,7 @@ def parse_seq(mode, texts):
             return len(_WARN.findall(buf.getvalue()))
         return 0
     try:
-        parser = cls()
+        parser = cls(**(kw or {}))
         data = parser.data
         state = {'last': 0}
         dirty, pre_dirty = {}, []
@@ -97,8 +97,8 @@ def parse_seq(mode, texts):
         pybtex.io.stderr = old_stderr
         errors.captured_errors = None
 
-def parse_all_modes(text):
-    return [parse_in_mode(m, text) for m in (0, 1, 2)]
+def parse_all_modes(text, kw=None):
+    return [parse_in_mode(m, text, kw) for m in (0, 1, 2)]
 
 def lowlevel_in_mode(mode, text):
     """list(LowLevelParser(text, macros=<fresh case-insensitive month table>, handle_error=...))"""
